@@ -4,7 +4,12 @@
 //! Bitmap backend implementation based on atomic integers.
 
 use std::num::NonZeroUsize;
-use std::sync::atomic::{AtomicU64, Ordering};
+#[cfg(not(vm_memory_verif))]
+use std::sync::atomic::AtomicU64;
+use std::sync::atomic::Ordering;
+
+#[cfg(vm_memory_verif)]
+use crate::verif::shim::AtomicU64;
 
 use crate::bitmap::{Bitmap, NewBitmap, RefSlice, WithBitmapSlice};
 
